@@ -9,6 +9,7 @@ import (
 	"fmt"
 	"strings"
 	"sync"
+	"sync/atomic"
 	"testing"
 	"time"
 )
@@ -213,6 +214,79 @@ func TestVF_C12_Replaced(t *testing.T) {
 			c12ReplacedRun(run, idx)
 			if idx%3 == 0 {
 				c12ChurnRun(run, idx/3)
+			}
+		}(idx)
+	}
+	wg.Wait()
+}
+
+// ---------------------------------------------------------------- partial cache bookkeeping
+
+// TestVF_C12_CacheBooks: the partial cache bounds a member's state by counting, per signer, the round caches that
+// signer has contributed to (rcvd[idx]); the bound only holds if that list is kept true. In ordinary operation
+// (honest members, no flood: nothing is ever evicted) every id in a signer's list must name a round cache that still
+// exists — a list that keeps ids of flushed rounds grows with the chain until the signer hits the limit and its
+// partials start being refused. Read in the aggregator's own goroutine through hook aggregator.cache.
+func TestVF_C12_CacheBooks(t *testing.T) {
+	vfsInstallHook()
+	run := vfNewRun("C12", "beaconnet-cache-books")
+	defer run.Finish()
+	n := vfPick(30, 300)
+	var wg sync.WaitGroup
+	sem := make(chan struct{}, 8)
+	lo, hi := 0, n
+	if ri, ok := vfReplayCase(); ok {
+		lo, hi = ri, ri+1
+	}
+	for idx := lo; idx < hi; idx++ {
+		wg.Add(1)
+		sem <- struct{}{}
+		go func(idx int) {
+			defer wg.Done()
+			defer func() { <-sem }()
+			sc := vfbGenScenario("C12b", idx, 2)
+			sc.Corrupted = nil // honest members only: no flood, nothing is evicted
+			sc.Adversary = false
+			if sc.Rounds < 14 {
+				sc.Rounds = 14
+			}
+			info := map[string]any{"case_index": idx, "scenario": sc}
+			var firings, maxList int64
+			reported := int32(0)
+			vfbRunScenario(run, sc, vfbScenarioHooks{afterStart: func(nt *vfbNet, adv *vfbAdversary) {
+				nt.mu.Lock()
+				nt.onHook = func(name string, nd *vfbNode, args []any) {
+					if name != "aggregator.cache" || len(args) == 0 {
+						return
+					}
+					pc, ok := args[0].(*partialCache)
+					if !ok {
+						return
+					}
+					atomic.AddInt64(&firings, 1)
+					for idx, ids := range pc.rcvd {
+						if int64(len(ids)) > atomic.LoadInt64(&maxList) {
+							atomic.StoreInt64(&maxList, int64(len(ids)))
+						}
+						for _, id := range ids {
+							if _, exists := pc.rounds[id]; !exists && atomic.CompareAndSwapInt32(&reported, 0, 1) {
+								run.Violation("C12/partial-cache-list-names-a-flushed-round",
+									fmt.Sprintf("node %d: the list of round caches signer %d has contributed to (%d entries) names one that no longer exists; %d round caches are held", nd.pos, idx, len(ids), len(pc.rounds)), info)
+							}
+						}
+					}
+				}
+				nt.mu.Unlock()
+			}})
+			run.Count("cache_inspections", atomic.LoadInt64(&firings))
+			key := ""
+			if firings > 20 {
+				key = sc.key()
+			}
+			run.Eval(key)
+			run.Seen("longest_signer_list", fmt.Sprint(atomic.LoadInt64(&maxList)))
+			if idx == 0 {
+				run.Sample(sc)
 			}
 		}(idx)
 	}
